@@ -212,11 +212,11 @@ def _sus_pre(M, idx, sus):
                 if idx[j] == idx[k]:
                     return False  # one line per lane at a tick
         if idx[k] == 7:
-            opens += 1
-            if k != 0:
-                return False      # documented undefined behaviour otherwise (see DESIGN C03)
+            opens += 1            # the open-note line may come after flag lines (ascending index order)
     if opens and lanes:
-        return False              # documented undefined behaviour
+        return False              # documented undefined behaviour: open note mixed with lane lines
+    if opens > 1:
+        return False              # one line per lane / open note at a tick
     return lanes + opens >= 1
 
 
